@@ -87,33 +87,55 @@ impl<'a> ResolveScope<'a> {
         &self,
         name: &str,
     ) -> Option<&'a ValueReference<<Asn<Unresolved> as Target>::ValueReferenceType>> {
+        self.value_reference_limited(name, self.scope.len())
+    }
+
+    /// Follows at most `import_hops` imports: a chain of imports that is longer than the count of
+    /// modules in scope is a cycle (a module importing the item from itself, two modules importing
+    /// it from each other) in which no module defines the item
+    fn value_reference_limited(
+        &self,
+        name: &str,
+        import_hops: usize,
+    ) -> Option<&'a ValueReference<<Asn<Unresolved> as Target>::ValueReferenceType>> {
         self.model
             .value_references
             .iter()
             .find(|vr| vr.name.eq(name))
             .or_else(|| {
+                let import_hops = import_hops.checked_sub(1)?;
                 self.model_with_imported_item(name).and_then(|model| {
                     ResolveScope {
                         model,
                         scope: self.scope,
                     }
-                    .value_reference(name)
+                    .value_reference_limited(name, import_hops)
                 })
             })
     }
 
     fn definition(&self, name: &str) -> Option<&'a Definition<Asn<Unresolved>>> {
+        self.definition_limited(name, self.scope.len())
+    }
+
+    /// See [`Self::value_reference_limited`]
+    fn definition_limited(
+        &self,
+        name: &str,
+        import_hops: usize,
+    ) -> Option<&'a Definition<Asn<Unresolved>>> {
         self.model
             .definitions
             .iter()
             .find(|def| def.name().eq(name))
             .or_else(|| {
+                let import_hops = import_hops.checked_sub(1)?;
                 self.model_with_imported_item(name).and_then(|model| {
                     ResolveScope {
                         model,
                         scope: self.scope,
                     }
-                    .definition(name)
+                    .definition_limited(name, import_hops)
                 })
             })
     }
